@@ -95,7 +95,46 @@ fn main() {
             dispatch!(a(2), worker(tier, p(4), p(5), p(6), p(7), &out, a(9) == "1"))
         }
         "minimise" => dispatch!(a(2), minimise_cmd(Path::new(a(3)), Path::new(a(4)))),
+        // replay <file>: runs the plan in a child process so that a plan that kills
+        // or hangs the process is itself reported as a reproduction
         "replay" => {
+            let file = PathBuf::from(a(2));
+            let exe = std::env::current_exe().expect("current_exe");
+            let mut ch = match std::process::Command::new(exe).arg("replay-inner").arg(&file).spawn() {
+                Ok(c) => c,
+                Err(e) => {
+                    eprintln!("replay: cannot spawn: {e}");
+                    std::process::exit(2);
+                }
+            };
+            let t0 = std::time::Instant::now();
+            let limit = std::env::var("VERIF_HANG_MS").ok().and_then(|s| s.parse().ok()).unwrap_or(60_000u64);
+            let prop = std::fs::read(&file).ok().and_then(|b| serde_json::from_slice::<serde_json::Value>(&b).ok()).map(|v| v["property"].as_str().unwrap_or("?").to_string()).unwrap_or_else(|| "?".into());
+            loop {
+                match ch.try_wait() {
+                    Ok(Some(st)) => match st.code() {
+                        Some(c) => break c,
+                        None => {
+                            println!("replay: the process died ({st:?})");
+                            println!("VIOLATION property={prop} replay={}", file.display());
+                            break 1;
+                        }
+                    },
+                    Ok(None) => {
+                        if t0.elapsed().as_millis() as u64 > limit {
+                            let _ = ch.kill();
+                            let _ = ch.wait();
+                            println!("replay: no result within {limit} ms (hang)");
+                            println!("VIOLATION property={prop} replay={}", file.display());
+                            break 1;
+                        }
+                        std::thread::sleep(std::time::Duration::from_millis(10));
+                    }
+                    Err(_) => break 2,
+                }
+            }
+        }
+        "replay-inner" => {
             let file = PathBuf::from(a(2));
             match std::fs::read(&file).ok().and_then(|b| serde_json::from_slice::<serde_json::Value>(&b).ok()) {
                 None => {
